@@ -82,6 +82,11 @@ pub fn unsupported(lang: Lang, d: &Desc) -> Option<String> {
                     }
                 }
             }
+            if lang == Lang::Java && fields.iter().any(|f| matches!(&f.kind, FieldKind::Size { field_id, .. } if field_id == "_body_")) {
+                // run_java_generator_tests.sh excludes Packet_Body_Field_VariableSize: the size
+                // field of a body is emitted as the size of an array called `body`
+                return Some("_size_(_body_) (excluded by the repository's Java test script)".into());
+            }
             if lang == Lang::Java && fields.iter().any(|f| matches!(f.kind, FieldKind::Body)) && d.children(&decl.id).next().is_none() {
                 return Some("_body_ without children (explicit panic in the Java backend)".into());
             }
